@@ -16,8 +16,8 @@ from ginsim import probes, shrink, world
 
 ID = 'C17'
 LEVEL = 'fault_enumeration'
-QUICK_RUNS = 400
-THOROUGH_RUNS = 8000
+QUICK_RUNS = 2000
+THOROUGH_RUNS = 40000
 SHRINK_BUDGET = 120
 RULE = ('run i draws from Random("<seed>/C17/<i>") an injection site (7 kinds), '
         'a nesting depth 1-4 of configurable calls, the scopes active per level '
